@@ -467,3 +467,51 @@ func poolSweep(ks []int, tails []string) []string {
 
 var sweepTails = []string{`!b`, `!f`, `!(x > y)`, `!(s == e)`, `!(t0 == t1)`, `!(xs == es)`, `!(m == em)`, `!isset(m, "k")`, `b`, `x > y`, `-x < y`, `o.p > 0`, `xs[0] > 0`, `if(b, f, b)`,
 	`!(t0 < t1)`, `!(s != e)`, `!(b == f)`, `!(b != f)`, `!(xs != es)`, `!(m != em)`, `!(t0 >= t1)`, `!(t0 <= t1)`, `!(t0 > t1)`, `!(t0 != t1)`}
+
+// permObjProg: two object literals with the same field names written in different orders meet at a type-equality check
+// (list / map literal, branches of if, get with default); when bad, the field TYPES line up by position but not by name.
+func (g *progGen) permObjProg(bad bool) string {
+	save := g.poison
+	g.poison = 0
+	defer func() { g.poison = save }()
+	k := 2 + g.rn(2)
+	names := []string{"a", "b", "c"}[:k]
+	prims := []*T{tnum(), tstr(), tbool(), ttime(), tlist(tnum())}
+	ts := make([]*T, k)
+	for {
+		for i := range ts {
+			ts[i] = prims[g.rn(len(prims))]
+		}
+		if !refEq(ts[0], ts[1]) {
+			break
+		}
+	}
+	var f1, f2 []string
+	for i := 0; i < k; i++ {
+		f1 = append(f1, names[i]+": "+g.Gen(ts[i], 0))
+	}
+	for i := 0; i < k; i++ {
+		j := (i + 1) % k // rotated order of names
+		vt := ts[j]
+		if bad {
+			vt = ts[i] // the value at POSITION i has the type the first object has at position i
+		}
+		f2 = append(f2, names[j]+": "+g.Gen(vt, 0))
+	}
+	first, second := "{"+strings.Join(f1, ", ")+"}", "{"+strings.Join(f2, ", ")+"}"
+	fld := names[g.rn(k)]
+	switch g.rn(6) {
+	case 0:
+		return "[" + first + ", " + second + "][1]." + fld
+	case 1:
+		return "if(f, " + first + ", " + second + ")." + fld
+	case 2:
+		return "[\"k\": " + first + ", \"j\": " + second + "][\"j\"]." + fld
+	case 3:
+		return "get([" + first + "], 7, " + second + ")." + fld
+	case 4:
+		return "{o: [" + first + ", " + second + "]}.o[1]." + fld
+	default:
+		return "[" + first + ", " + second + "]"
+	}
+}
